@@ -40,6 +40,7 @@ BENIGN = {
  'stale-leader-pointer': 'a candidate keeps naming the old leader until the election ends; no listed property speaks about it',
  'tcp-length-unsigned-recv': 'a negative length is read as a huge one: the receiver waits instead of disconnecting, which C13 allows (nothing further is delivered)',
  'transfer-not-cancelled-on-disconnect': 'covered by the restart on every new connection and by the lazy cancel in the next append_entries round',
+ 'snapshot-failed-load-acked': 'a load can fail only on a damaged snapshot, and since c3244f6/607c98b/78ef7bc transfers cannot assemble one any more: the reverted guard is unreachable in the simulator',
  'snapshot-offset-not-restarted': 'the receiver drops chunks that do not continue its buffer and the sender starts over after the last chunk: slower, same outcome',
  'snapshot-transfer-skips-first-chunk-check': 'with FIFO connections a non-first chunk never meets an empty buffer (the sender restarts at the first chunk after every disconnect)',
 }
@@ -62,9 +63,31 @@ def run(m):
 
 def main():
     jobs = int(sys.argv[1]) if len(sys.argv) > 1 else 3
+    only = sys.argv[2:]
     t0 = time.time()
     with ThreadPoolExecutor(jobs) as ex:
-        results = list(ex.map(run, list(MUTANTS)))
+        results = list(ex.map(run, only or list(MUTANTS)))
+    if only:
+        # re-run of a few mutants: replace their rows in the existing table
+        path = os.path.join(HERE, 'sensitivity_mutants.md')
+        old = open(path).read().split('\n')
+        keep = [l for l in old if not any(l.startswith('| %s |' % m) for m in only)]
+        rows = []
+        for m, out in results:
+            for c, ex_, t, sig in out:
+                res = 'DETECTED' if ex_ == 'exit=1' else ('not detected' if ex_ == 'exit=0' else ex_)
+                if ex_ == 'exit=0' and m in BENIGN:
+                    res = 'not detected - judged benign: ' + BENIGN[m]
+                rows.append('| %s | %s | %s | %s (%s) | %s |' % (m, MUTANTS[m]['why'], c, res, t, sig))
+        last = max(i for i, l in enumerate(keep) if l.startswith('| '))
+        keep[last + 1:last + 1] = rows
+        body = [l for l in keep if not l.startswith('%d of' % 0) and ' pairs detected in the quick tier' not in l]
+        tab = [l for l in body if l.startswith('| ') and not l.startswith('| mutant') and not l.startswith('|---')]
+        det = sum(1 for l in tab if '| DETECTED' in l)
+        body += ['%d of %d (mutant, check) pairs detected in the quick tier (rows of %s re-run separately).' % (det, len(tab), ', '.join(only)), '']
+        open(path, 'w').write('\n'.join(body))
+        print('\n'.join(rows))
+        return
     lines = ['# Sensitivity: deliberate breakages vs. quick-tier checks', '',
              'Generated by tools/sensitivity.py (each mutant applied to a scratch copy of /repo/pysyncobj under /tmp, removed afterwards; quick tier, VERIF_SEED default).',
              'exit=1 means the check reported a VIOLATION (detected), exit=0 not detected in the quick tier.', '',
